@@ -36,10 +36,83 @@ const (
 )
 
 func c04Comp(c int) func(a, b int) bool {
-	if c == 0 || c == 2 || c == 4 || c == 6 {
+	switch c {
+	case 0, 2, 4, 6:
 		return func(a, b int) bool { return a < b }
+	case 8: // ties: keys compared on key/2 (Go's truncating division)
+		return func(a, b int) bool { return a/2 < b/2 }
+	case 9:
+		return func(a, b int) bool { return a/2 > b/2 }
+	case 10: // ties: keys compared on key%3 (the classes interleave)
+		return func(a, b int) bool { return a%3 < b%3 }
+	case 11:
+		return func(a, b int) bool { return a%3 > b%3 }
+	case 12: // the wire view of the case-insensitive string instance (see c04CaseKey)
+		return func(a, b int) bool { return a/4 < b/4 }
+	case 13:
+		return func(a, b int) bool { return a/4 > b/4 }
+	case 14: // NON-strict
+		return func(a, b int) bool { return a <= b }
+	case 15:
+		return func(a, b int) bool { return a >= b }
 	}
 	return func(a, b int) bool { return a > b }
+}
+
+// c04Asc: the modes whose comparator is an ascending one.
+func c04Asc(c int) bool { return c%2 == 0 }
+
+// ---- comparators with ties (modes 8..13) and non-strict comparators (14, 15), see C04_Wire.v
+//
+//	8, 9    BsTree[int, int]         a/2 < b/2, a/2 > b/2
+//	10, 11  BsTree[int, int]         a%3 < b%3, a%3 > b%3
+//	12, 13  BsTree[string, string]   strings.ToLower(a) < / > strings.ToLower(b)
+//	14, 15  BsTree[int, int]         a <= b, a >= b
+//
+// Modes 12/13: a wire key k in 0..4*26^4-1 stands for a 4-letter word; the letters spell k/4 in
+// base 26 ('a' = 0, most significant first) and k%4 says which of the first two letters are upper
+// case (bit 0: the first, bit 1: the second).  So k and k' tie under the comparator iff k/4 == k'/4
+// and lower-case order is the numeric order of k/4.  Built afresh for every call.
+const c04CaseKeys = int64(4 * 26 * 26 * 26 * 26)
+
+func c04Ties(c int) bool { return c >= 8 && c <= 15 }
+
+func c04CaseKey(k int64) string {
+	c, u := k/4, k%4
+	b := make([]byte, 4)
+	for i := 3; i >= 0; i-- {
+		b[i] = byte('a' + c%26)
+		c /= 26
+	}
+	if u&1 != 0 {
+		b[0] -= 'a' - 'A'
+	}
+	if u&2 != 0 {
+		b[1] -= 'a' - 'A'
+	}
+	return string(b)
+}
+
+func c04CaseUnkey(s string) int64 {
+	if len(s) != 4 {
+		return -888
+	}
+	var c, u int64
+	for i := 0; i < 4; i++ {
+		ch := s[i]
+		if ch >= 'A' && ch <= 'Z' {
+			if i > 1 {
+				return -888
+			}
+			u |= 1 << uint(i)
+			ch += 'a' - 'A'
+		}
+		if ch < 'a' || ch > 'z' {
+			return -888
+		}
+		c = c*26 + int64(ch-'a')
+	}
+	return c*4 + u
 }
 
 const (
@@ -207,6 +280,18 @@ func execC04(in []int64) []int64 {
 	}
 	mode := int(in[0])
 	asc := mode == 0 || mode == 2 || mode == 4 || mode == 6
+	if mode == 12 || mode == 13 {
+		for i := 1; i+2 < len(in); i += 3 {
+			if in[i] <= c04Get && (in[i+1] < 0 || in[i+1] >= c04CaseKeys) {
+				return []int64{-1} // outside the range of the 4-letter key codec
+			}
+		}
+		comp := func(a, b string) bool { return strings.ToLower(a) < strings.ToLower(b) }
+		if mode == 13 {
+			comp = func(a, b string) bool { return strings.ToLower(a) > strings.ToLower(b) }
+		}
+		return c04Run[string, string](in, comp, c04CaseKey, c04CaseUnkey, c04StrVal, c04StrUnval)
+	}
 	if c04Instance(mode) {
 		for i := 1; i+2 < len(in); i += 3 {
 			if in[i] <= c04Get && (in[i+1] <= -c04KeyBias || in[i+1] >= c04KeyBias) {
@@ -248,16 +333,33 @@ func describeC04(in []int64) string {
 	}
 	var sb strings.Builder
 	switch {
-	case in[0] == 4 || in[0] == 5:
+	case in[0] == 4 || in[0] == 5 || in[0] == 12 || in[0] == 13:
 		sb.WriteString("New[string,string]")
 	case in[0] == 6 || in[0] == 7:
 		sb.WriteString("New[Key(named string),struct]")
 	default:
 		sb.WriteString("New")
 	}
-	if in[0] == 0 || in[0] == 2 || in[0] == 4 || in[0] == 6 {
+	switch in[0] {
+	case 0, 2, 4, 6:
 		sb.WriteString("(a<b)")
-	} else {
+	case 8:
+		sb.WriteString("(a/2<b/2)")
+	case 9:
+		sb.WriteString("(a/2>b/2)")
+	case 10:
+		sb.WriteString("(a%3<b%3)")
+	case 11:
+		sb.WriteString("(a%3>b%3)")
+	case 12:
+		sb.WriteString("(ToLower(a)<ToLower(b)) [key k = word k/4 in base 26, case pattern k%4: 0 abcd, 1 Abcd, 2 aBcd, 3 ABcd]")
+	case 13:
+		sb.WriteString("(ToLower(a)>ToLower(b)) [key k = word k/4 in base 26, case pattern k%4: 0 abcd, 1 Abcd, 2 aBcd, 3 ABcd]")
+	case 14:
+		sb.WriteString("(a<=b)")
+	case 15:
+		sb.WriteString("(a>=b)")
+	default:
 		sb.WriteString("(a>b)")
 	}
 	key := func(k int64) int64 { return k }
@@ -647,6 +749,9 @@ func genC04(g *Gen) {
 						back = len(lastDel)
 					}
 					k = lastDel[len(lastDel)-1-g.Rng.Intn(back)] + g.Rng.Intn(5) - 2
+					if k < 0 && (cmp == 12 || cmp == 13) {
+						k = 0 // the 4-letter key codec of the case-insensitive instance has no negative keys
+					}
 				}
 				w = append(w, c04Get, int64(k), 0)
 			case x < 95:
@@ -736,6 +841,136 @@ func genC04(g *Gen) {
 		emit("instances", []int64{int64(mode), c04Upsert, edge, 1, c04Upsert, -edge, 2, c04Upsert, 0, 3, c04Upsert, -1, 4, c04Upsert, 1, 5,
 			c04Get, edge, 0, c04Get, -edge, 0, c04Delete, 0, 0, c04Get, -1, 0, c04Upsert, edge, 6, c04Delete, -edge, 0, c04Delete, -edge, 0, c04Traverse, 0, 0})
 	}
+
+	// --- ties: comparators under which DISTINCT keys tie (modes 8..13: a/2, a%3, case-insensitive
+	// strings) and non-strict comparators (14, 15: a <= b, a >= b).  Over keys 0..4 the classes are
+	// {0,1} {2,3} {4} (a/2), {0,3} {1,4} {2} (a%3), {0,1,2,3} {4} (strings, a/4).
+	//   TA  every Upsert/Delete sequence of length <= 4 (thorough 5) over keys 0..4, Get of every key
+	//       (quick: length <= 3 for the descending modes and for a <= b)
+	//   TB  every sequence of length <= 3 (thorough 4) over the 17 operations, observed per operation
+	//       (quick: length <= 2 for the descending modes)
+	//   TC  every insertion order of every subset of 0..4, one Delete, at most one re-Upsert, Get of
+	//       every key (quick, modes other than 8 and 12: re-Upsert of the deleted key only)
+	//   TD  (modes 8, 9, 12, 13) four classes with two members each: every insertion order of the
+	//       classes, every choice of the member inserted, Delete of each of the 8 keys, Upsert of the
+	//       OTHER member of the deleted class, Get of all 8 keys
+	//   random histories (as above) and histories over the keys -4..4 (modes 8..11, 14, 15)
+	for mode := 8; mode <= 13; mode++ /* 14, 15 (non-strict <=, >=) are outside the property: modelled and proved, not generated */ {
+		g.Count(fmt.Sprintf("ties:mode %d", mode))
+		la := g.Pick(4, 5)
+		if g.Quick() && (!c04Asc(mode) || mode == 14) {
+			la = 3
+		}
+		lb := g.Pick(3, 4)
+		if g.Quick() && !c04Asc(mode) {
+			lb = 2
+		}
+		seqsUpTo(2*nk, la, func(seq []int) {
+			w := []int64{int64(mode)}
+			for i, s := range seq {
+				if s < nk {
+					w = append(w, c04Upsert, int64(s), int64(val(i, s)))
+				} else {
+					w = append(w, c04Delete, int64(s-nk), 0)
+				}
+			}
+			emit("ties", probes(w))
+		})
+		seqsUpTo(3*nk+2, lb, func(seq []int) {
+			w := []int64{int64(mode)}
+			for i, s := range seq {
+				switch {
+				case s < nk:
+					w = append(w, c04Upsert, int64(s), int64(val(i, s)))
+				case s < 2*nk:
+					w = append(w, c04Delete, int64(s-nk), 0)
+				case s < 3*nk:
+					w = append(w, c04Get, int64(s-2*nk), 0)
+				case s == 3*nk:
+					w = append(w, c04Size, 0, 0)
+				default:
+					w = append(w, c04Traverse, 0, 0)
+				}
+			}
+			emit("ties", w)
+		})
+		for _, p := range perms {
+			for d := 0; d < nk; d++ {
+				for re := -1; re < nk; re++ {
+					if g.Quick() && mode != 8 && mode != 12 && re >= 0 && re != d {
+						continue
+					}
+					w := []int64{int64(mode)}
+					i := 0
+					for _, k := range p {
+						w = append(w, c04Upsert, int64(k), int64(val(i, k)))
+						i++
+					}
+					w = append(w, c04Delete, int64(d), 0)
+					i++
+					if re >= 0 {
+						w = append(w, c04Upsert, int64(re), int64(val(i, re)))
+					}
+					emit("ties", probes(w))
+				}
+			}
+		}
+		if mode == 8 || mode == 9 || mode == 12 || mode == 13 {
+			member := func(c, j int) int64 { // the j-th member (0, 1) of class c
+				if mode >= 12 {
+					return int64(4*c + 3*j)
+				}
+				return int64(2*c + j)
+			}
+			var all []int64
+			for c := 0; c < 4; c++ {
+				all = append(all, member(c, 0), member(c, 1))
+			}
+			for _, p := range perms {
+				if len(p) != 4 || p[0] == 4 || p[1] == 4 || p[2] == 4 || p[3] == 4 {
+					continue
+				}
+				for choice := 0; choice < 16; choice++ {
+					for d := 0; d < 8; d++ {
+						w := []int64{int64(mode)}
+						for i, c := range p {
+							w = append(w, c04Upsert, member(c, choice>>uint(c)&1), int64(10*(i+1)+c))
+						}
+						w = append(w, c04Delete, all[d], 0, c04Upsert, all[d^1], 99)
+						for _, k := range all {
+							w = append(w, c04Get, k, 0)
+						}
+						emit("ties", w)
+					}
+				}
+			}
+		}
+		for it, nr := 0, g.Pick(60, 1500); it < nr; it++ {
+			emit("ties-random", randHist(func(r int) int { return mode }))
+		}
+		if mode != 12 && mode != 13 {
+			for it, nr := 0, g.Pick(100, 2000); it < nr; it++ {
+				w := []int64{int64(mode)}
+				for n := 0; n < 30; n++ {
+					k := int64(g.Rng.Intn(9) - 4)
+					switch x := g.Rng.Intn(100); {
+					case x < 40:
+						w = append(w, c04Upsert, k, int64(g.Rng.Intn(1000)))
+					case x < 65:
+						w = append(w, c04Delete, k, 0)
+					case x < 92:
+						w = append(w, c04Get, k, 0)
+					case x < 96:
+						w = append(w, c04Size, 0, 0)
+					default:
+						w = append(w, c04Traverse, 0, 0)
+					}
+				}
+				emit("ties-random", w)
+			}
+		}
+	}
+	g.Exhaustive("ties")
 
 	// --- large: trees of 100..2000 keys (thorough: ..5000) built in sorted,
 	// reversed, zig-zag (lo, hi, lo+1, hi-1, ..: one path that turns at every
@@ -953,5 +1188,5 @@ func sortedKeys(m map[int]bool) []int {
 
 func init() {
 	register(&Prop{ID: "C04", Exec: execC04, Gen: genC04, Describe: describeC04,
-		Rule: "exhaustive, for the ascending and the descending comparator: (A) every Upsert/Delete sequence of length <= 5 (thorough 6) over keys 0..4 followed by Get of every key, final Size and Traverse; (B) every sequence of length <= 4 over all 17 operations Upsert k/Delete k/Get k/Size/Traverse, k in 0..4, observed per operation; (C) every insertion order of every subset of 0..4, then every Delete sequence of length <= 2 (thorough 3), then at most one re-Upsert, then Get of every key; (D) every insertion order of every subset of >= 2 keys, one read (Get k, Size or Traverse; thorough two), one Delete, at most one re-Upsert, Get of every key; (E) every such insertion order, then Delete, Upsert, Delete (thorough: and Upsert) over all keys, Get of every key. random: length-300 histories over 8/16/64 keys, tree pre-filled in sorted, reversed or random order, deletes biased to present keys, lookups biased to neighbours of deleted keys. large: trees of 128..1025 keys built at random then Size and Traverse; trees of 100, 256, 257, 513, 1000, 2000 keys (thorough: also 255, 512, 1025, 3000, 5000) built in sorted, reversed, zig-zag (all three of depth = size) and random order with three scripts (delete every second key / re-upsert; delete in insertion order; delete in reverse order) observing Size, Traverse and Get of every key. extreme: keys MinInt64, MaxInt64, +-2^62, 0 and neighbours mixed in one tree (every ordered triple inserted, first deleted, all looked up; seeded random histories), both comparators. instances: BsTree[string,string] and BsTree[named string type, non-comparable struct] with string comparators, keys = 13-digit decimal strings and values built by fmt/strconv afresh for every call: every sequence of <= 3 (thorough 4) of the 17 operations, every insertion order of every subset of 0..4 then one Delete and at most one re-Upsert (quick: of the deleted key or its neighbour, one comparator per instance), every insertion order of 3 (thorough 3 or 4) keys then Get g, Delete d, Upsert u for all g, d, u, 60 (1500) random histories per mode. non-trivial = the history contains a Delete of a node with two children that is followed by a Get of that node's in-order successor key; distinct = distinct wire input"})
+		Rule: "exhaustive, for the ascending and the descending comparator: (A) every Upsert/Delete sequence of length <= 5 (thorough 6) over keys 0..4 followed by Get of every key, final Size and Traverse; (B) every sequence of length <= 4 over all 17 operations Upsert k/Delete k/Get k/Size/Traverse, k in 0..4, observed per operation; (C) every insertion order of every subset of 0..4, then every Delete sequence of length <= 2 (thorough 3), then at most one re-Upsert, then Get of every key; (D) every insertion order of every subset of >= 2 keys, one read (Get k, Size or Traverse; thorough two), one Delete, at most one re-Upsert, Get of every key; (E) every such insertion order, then Delete, Upsert, Delete (thorough: and Upsert) over all keys, Get of every key. random: length-300 histories over 8/16/64 keys, tree pre-filled in sorted, reversed or random order, deletes biased to present keys, lookups biased to neighbours of deleted keys. large: trees of 128..1025 keys built at random then Size and Traverse; trees of 100, 256, 257, 513, 1000, 2000 keys (thorough: also 255, 512, 1025, 3000, 5000) built in sorted, reversed, zig-zag (all three of depth = size) and random order with three scripts (delete every second key / re-upsert; delete in insertion order; delete in reverse order) observing Size, Traverse and Get of every key. extreme: keys MinInt64, MaxInt64, +-2^62, 0 and neighbours mixed in one tree (every ordered triple inserted, first deleted, all looked up; seeded random histories), both comparators. instances: BsTree[string,string] and BsTree[named string type, non-comparable struct] with string comparators, keys = 13-digit decimal strings and values built by fmt/strconv afresh for every call: every sequence of <= 3 (thorough 4) of the 17 operations, every insertion order of every subset of 0..4 then one Delete and at most one re-Upsert (quick: of the deleted key or its neighbour, one comparator per instance), every insertion order of 3 (thorough 3 or 4) keys then Get g, Delete d, Upsert u for all g, d, u, 60 (1500) random histories per mode. ties: comparators under which distinct keys tie - a/2<b/2, a/2>b/2, a%3<b%3, a%3>b%3 on int keys, strings.ToLower(a)</>strings.ToLower(b) on BsTree[string,string] with 4-letter keys in four case patterns - and the non-strict a<=b, a>=b (comparator modes 8..15): every Upsert/Delete sequence of length <= 4 (thorough 5; quick: 3 for the descending modes and a<=b) over keys 0..4 with Get of every key, every sequence of length <= 3 (thorough 4; quick: 2 for the descending modes) of the 17 operations, every insertion order of every subset of 0..4 then one Delete and at most one re-Upsert (quick: of the deleted key only, except for a/2<b/2 and the ascending string mode), four two-member classes in every insertion order with every choice of the inserted member, a Delete through each of the 8 keys and an Upsert of the other member (a/2 and string modes); ties-random: 60 (1500) length-300 histories per mode and 100 (2000) length-30 histories over keys -4..4. non-trivial = the history contains a Delete of a node with two children that is followed by a Get of that node's in-order successor key; distinct = distinct wire input"})
 }
